@@ -79,6 +79,7 @@ class Env:
         self.lst = [None]
         self.prog_frame = None
         self.pid = beh.get("pid", 0)
+        self.last_rm = None
 
     # ---- program services
     def c(self):
@@ -108,6 +109,18 @@ class Env:
         return _trap()
 
     def mk(self, i):
+        # a RE-ENTRANT manager entered once more, directly inside itself (like an RLock): one object, two open blocks
+        prev = self.last_rm
+        if (prev is not None and prev.entered and prev.entered[-1] == i - 1 and prev.is_async == self.r.is_async[i]
+                and self.r.shape[i] == "self" and not self.r.enter_raises[i]):
+            prev.pending.append(i)
+            return prev
+        if ((i + self.pid) % 6 == 1 and i % 4 != 3 and self.r.shape[i] == "self" and not self.r.enter_raises[i]):
+            m = (ARM if self.r.is_async[i] else RM)(self, i, self.r.shape[i])
+            self.last_rm = m
+            self.by_id[id(m)] = i
+            self.keep.append(m)
+            return m
         if i % 4 == 3:
             m = make_gcm(self, i, self.r.shape[i], self.r.is_async[i])     # generator-based manager
         else:
@@ -197,6 +210,34 @@ class M:
         return self.i % 3 == 0
 
 
+class RM(M):
+    """re-entrant: may be entered again while it is entered; `entered` lists the ids of its open blocks, outermost first"""
+    is_async = False
+
+    def __init__(self, env, i, shape):
+        M.__init__(self, env, i, shape)
+        self.pending, self.entered, self.current = [i], [], None
+
+    def __enter__(self):
+        i = self.current = self.pending.pop(0)
+        ev = self.env.expect("enter", i)
+        self.env.inner_probe(ev, "enter", None)
+        self.env.expect("entered", i)
+        self.entered.append(i)
+        self.current = None
+        return self
+
+    def __exit__(self, *exc):
+        i = self.entered[-1]
+        ev = self.env.expect("exit", i, "raise" if exc[0] is not None else "other")
+        self.env.inner_probe(ev, "exit", None)
+        self.env.expect("exited", i)
+        self.entered.pop()
+        if self.env.r.exit_raises[i]:
+            raise Boom()
+        return i % 3 == 0
+
+
 class MC(io.StringIO):
     """a manager whose __enter__ and __exit__ are C functions (io's): `with` calls builtin methods, and the frame inward of
     the program's is not that of a function called __enter__ / __exit__.  The C code calls back into Python -- __enter__
@@ -257,6 +298,37 @@ class AM:
         if self.env.r.exit_raises[self.i]:
             raise Boom()
         return self.i % 3 == 0
+
+
+class ARM(AM):
+    is_async = True
+
+    def __init__(self, env, i, shape):
+        AM.__init__(self, env, i, shape)
+        self.pending, self.entered, self.current = [i], [], None
+
+    async def __aenter__(self):
+        i = self.current = self.pending.pop(0)
+        ev = self.env.expect("enter", i)
+        self.env.inner_probe(ev, "enter", None)
+        if self.env.mse:
+            await self.env.trap()
+        self.env.expect("entered", i)
+        self.entered.append(i)
+        self.current = None
+        return self
+
+    async def __aexit__(self, *exc):
+        i = self.entered[-1]
+        ev = self.env.expect("exit", i, "raise" if exc[0] is not None else "other")
+        self.env.inner_probe(ev, "exit", None)
+        if self.env.mse:
+            await self.env.trap()
+        self.env.expect("exited", i)
+        self.entered.pop()
+        if self.env.r.exit_raises[i]:
+            raise Boom()
+        return i % 3 == 0
 
 
 def _parked_gen():
@@ -480,8 +552,20 @@ def expected_contexts(ev, rendered):
 
 def observed_contexts(env, contexts):
     out = []
+    seen = {}
     for c in contexts:
         mid = env.by_id.get(id(c.obj)) if c.obj is not None else None
+        blocks = getattr(c.obj, "entered", None) if isinstance(c.obj, (RM, ARM)) else None
+        if blocks is not None:
+            # a re-entrant manager: its k-th occurrence stands for its k-th open block (outermost first)
+            k = seen.get(id(c.obj), 0)
+            seen[id(c.obj)] = k + 1
+            if k < len(blocks):
+                mid = blocks[k]
+            elif c.obj.current is not None:
+                mid = c.obj.current           # the block it is being entered for right now
+            elif blocks:
+                mid = blocks[-1]              # one occurrence too many: if legitimate at all, the block being left
         out.append((mid, bool(c.is_async), bool(c.is_exiting)))
     return out
 
@@ -626,6 +710,9 @@ class Checker:
                 if tsrc and env.r.supported[m]:
                     self.bad("varname dropped for supported target %r" % tsrc, meta=True, tgt=tsrc, **info)
             elif tsrc:
+                loc = fr.pyframe.f_locals
+                if not env.r.supported[m] and vn in loc and loc[vn] is c.obj:
+                    continue        # no reconstructible target: the name of a local bound to the manager is allowed
                 if not target_matches(vn, tsrc):
                     self.bad("varname %r does not parse to the target %r" % (vn, tsrc), meta=True, tgt=tsrc, **info)
             else:
